@@ -85,7 +85,37 @@ def project():
     return {"order": order, "base": base, "caches": caches, "reg": sorted(name_of.values())}
 
 
+MONTHS = ["january", "february", "march", "april", "may", "june", "july", "august", "september", "october", "november", "december"]
+DAYS = ["monday", "tuesday", "wednesday", "thursday", "friday", "saturday", "sunday"]
+
+
+def locale_words():
+    """words that only SOME regional locales of a language know: (language, locale, key, word, sibling locales without it)"""
+    import importlib
+    from dateparser.data import language_locale_dict, language_order
+    out = []
+    for L in language_order:
+        info = importlib.import_module("dateparser.data.date_translation_data." + L).info
+        ls = info.get("locale_specific") or {}
+        for R, d in ls.items():
+            for k, v in d.items():
+                items = [(k, v)] if isinstance(v, list) else [(k2, v2) for k2, v2 in v.items() if isinstance(v2, list)] if isinstance(v, dict) else []
+                for kk, words in items:
+                    base = info.get(kk) or (info.get(k) or {}).get(kk, []) if isinstance(info.get(k), dict) else info.get(kk) or []
+                    for w in words:
+                        if not isinstance(w, str) or w in base:
+                            continue
+                        sib = [R2 for R2 in language_locale_dict.get(L, []) if R2 != R and w not in (((ls.get(R2) or {}).get(k) or []) if isinstance(v, list)
+                                                                                                   else ((ls.get(R2) or {}).get(k) or {}).get(kk, []))]
+                        base0 = (info.get(kk) or [""])[0] if isinstance(v, list) else ""
+                        out.append({"lang": L, "loc": R, "key": kk, "word": w, "siblings": sib[:6], "base": str(base0), "rel": not isinstance(v, list)})
+    return out
+
+
 def main():
+    if len(sys.argv) > 1 and sys.argv[1] == "locale-words":
+        json.dump(locale_words(), sys.stdout)
+        return
     req = json.load(sys.stdin)
     import dateparser
     from dateparser.date import DateDataParser
@@ -130,7 +160,7 @@ def main():
                 _, i, a = c
                 st = _dec(a.get("settings"))
                 args_before = json.dumps(st, sort_keys=True, default=str)
-                insts[i] = (DateDataParser(languages=a.get("languages"), settings=st), None)
+                insts[i] = (DateDataParser(languages=a.get("languages"), locales=a.get("locales"), settings=st), None)
                 conc = "created"
                 untouched = args_before == json.dumps(st, sort_keys=True, default=str)
             elif kind == "xget":          # ["xget", inst, string]
@@ -145,9 +175,11 @@ def main():
                 st = _dec(a.get("settings"))
                 langs = list(a["languages"]) if a.get("languages") else None
                 args_before = (json.dumps(st, sort_keys=True, default=str), list(langs or []))
-                r = dateparser.parse(a["s"], languages=langs, settings=st)
+                locs = list(a["locales"]) if a.get("locales") else None
+                r = dateparser.parse(a["s"], languages=langs, locales=locs, settings=st)
+                untouched_l = locs == (list(a["locales"]) if a.get("locales") else None)
                 conc = norm_dt(r) + ("|off=%s" % r.utcoffset() if r is not None and r.tzinfo is not None else "")
-                untouched = args_before == (json.dumps(st, sort_keys=True, default=str), list(langs or []))
+                untouched = untouched_l and args_before == (json.dumps(st, sort_keys=True, default=str), list(langs or []))
             elif kind == "xsearch":
                 _, a = c
                 st = _dec(a.get("settings"))
